@@ -1,22 +1,223 @@
 package main
 
 import (
+	"flag"
 	"fmt"
 	"os"
-
-	"golang.org/x/tools/go/packages"
-	"golang.org/x/tools/go/ssa"
-	"golang.org/x/tools/go/ssa/ssautil"
+	"path/filepath"
+	"runtime/debug"
+	"sort"
+	"strconv"
+	"strings"
+	"time"
 )
 
+type propFunc func(cx *Ctx, r *Report)
+
+// Ctx bundles the program views shared by all rules.
+type Ctx struct {
+	W    *World
+	Fx   *Facts
+	Tier string
+}
+
+var registry = map[string]propFunc{}
+
+func register(id string, f propFunc) { registry[id] = f }
+
 func main() {
-	cfg := &packages.Config{Mode: packages.LoadAllSyntax, Dir: os.Args[1], Tests: false, BuildFlags: []string{"-mod=readonly"}}
-	pkgs, err := packages.Load(cfg, "./...")
-	if err != nil {
-		panic(err)
+	prop := flag.String("property", "", "property id (C01..C20) or 'all'")
+	tier := flag.String("tier", "quick", "quick|thorough")
+	repo := flag.String("repo", "/repo", "repository working tree to analyse")
+	verif := flag.String("verif", "/verif", "verification directory (evidence, known findings)")
+	dump := flag.String("dump", "", "debug: chain:<funcKey> | funcs | paths:<funcKey>")
+	noEvidence := flag.Bool("no-evidence", false, "do not write evidence (used by self-tests on scratch copies)")
+	version := flag.Bool("version", false, "print version")
+	replay := flag.String("replay", "", "re-evaluate the obligation recorded in this violation file")
+	flag.Parse()
+	if *version {
+		fmt.Println("samlcheck 1")
+		return
 	}
-	n := packages.PrintErrors(pkgs)
-	prog, spkgs := ssautil.AllPackages(pkgs, ssa.InstantiateGenerics)
-	prog.Build()
-	fmt.Println(len(pkgs), n, len(spkgs))
+	if *replay != "" {
+		os.Exit(doReplay(*replay, *repo, *verif))
+	}
+	defer func() {
+		if e := recover(); e != nil {
+			fmt.Fprintf(os.Stderr, "samlcheck: internal error: %v\n%s\n", e, debug.Stack())
+			os.Exit(2)
+		}
+	}()
+	w, err := loadWorld(*repo)
+	if err != nil {
+		fmt.Fprintln(os.Stderr, "samlcheck: infrastructure failure:", err)
+		os.Exit(2)
+	}
+	cx := &Ctx{W: w, Fx: newFacts(w), Tier: *tier}
+	if *dump != "" {
+		doDump(cx, *dump)
+		return
+	}
+	var ids []string
+	if *prop == "all" {
+		for id := range registry {
+			ids = append(ids, id)
+		}
+		sort.Strings(ids)
+	} else {
+		for _, id := range strings.Split(*prop, ",") {
+			if _, ok := registry[id]; !ok {
+				fmt.Fprintf(os.Stderr, "samlcheck: no check for property %q\n", id)
+				os.Exit(2)
+			}
+			ids = append(ids, id)
+		}
+	}
+	kfs, err := loadKnownFindings(filepath.Join(*verif, "known_findings.txt"))
+	if err != nil {
+		fmt.Fprintln(os.Stderr, "samlcheck:", err)
+		os.Exit(2)
+	}
+	seed, _ := strconv.Atoi(os.Getenv("VERIF_SEED"))
+	exit := 0
+	for _, id := range ids {
+		t0 := time.Now()
+		r := newReport(id, *tier)
+		registry[id](cx, r)
+		info := runInfo{Packages: len(w.Pkgs), Files: w.NFiles, Functions: len(w.Funcs), WallS: time.Since(startTime).Seconds(), Seed: seed, VerifDir: *verif}
+		if len(ids) > 1 {
+			info.WallS = time.Since(t0).Seconds()
+		}
+		var code int
+		if *noEvidence {
+			code = r.finishNoEvidence(kfs)
+		} else {
+			code = r.finish(info, kfs)
+		}
+		if code > exit {
+			exit = code
+		}
+	}
+	os.Exit(exit)
+}
+
+// finishNoEvidence prints violations only (scratch-copy self tests).
+func (r *Report) finishNoEvidence(kfs []knownFinding) int {
+	n := 0
+	for _, o := range r.Obl {
+		if o.Verdict != "violation" && o.Verdict != "undecided" {
+			continue
+		}
+		known := false
+		if o.Verdict == "violation" {
+			for _, kf := range kfs {
+				if kf.Property == r.Property && kf.Rule == o.Rule && kf.Key == o.Key {
+					known = true
+				}
+			}
+		}
+		if known {
+			fmt.Printf("KNOWN-FINDING: property=%s rule=%s key=%s\n", r.Property, o.Rule, o.Key)
+			continue
+		}
+		n++
+		fmt.Printf("VIOLATION property=%s replay=- rule=%s key=%s at %s: %s\n", r.Property, o.Rule, o.Key, o.Pos, o.Detail)
+	}
+	fmt.Printf("%s: %d obligations, %d violations\n", r.Property, len(r.Obl), n)
+	if n > 0 {
+		return 1
+	}
+	return 0
+}
+
+func doDump(cx *Ctx, what string) {
+	w := cx.W
+	switch {
+	case what == "funcs":
+		for _, f := range w.Funcs {
+			fmt.Println(w.FuncKey(f), w.FnPos(f))
+		}
+	case strings.HasPrefix(what, "chain:"):
+		fn := w.Func(strings.TrimPrefix(what, "chain:"))
+		if fn == nil {
+			fmt.Println("no such function")
+			return
+		}
+		ch, err := w.extractChain(cx.Fx, fn)
+		if err != nil {
+			fmt.Println("error:", err)
+			return
+		}
+		for _, s := range ch.Steps {
+			fmt.Printf("%d %s %q at %s\n", s.Idx, s.Kind, s.Name, s.Pos)
+			roles := []string{}
+			for k := range s.Role {
+				roles = append(roles, k)
+			}
+			sort.Strings(roles)
+			for _, k := range roles {
+				for _, f := range s.Role[k] {
+					fmt.Printf("    %-9s %s\n", k, w.FuncKey(f))
+				}
+			}
+		}
+	case strings.HasPrefix(what, "facts:"):
+		fn := w.Func(strings.TrimPrefix(what, "facts:"))
+		if fn == nil {
+			fmt.Println("no such function")
+			return
+		}
+		for _, b := range fn.Blocks {
+			fmt.Printf("block %d (%s): %v\n", b.Index, b.Comment, atomStrings(cx.Fx.AtomsAtBlock(b)))
+			for _, in := range b.Instrs {
+				if v, ok := in.(interface{ Name() string }); ok {
+					fmt.Printf("    %s = %s", v.Name(), in.String())
+				} else {
+					fmt.Printf("    %s", in.String())
+				}
+				fmt.Println()
+			}
+		}
+	}
+}
+
+func doReplay(path, repo, verif string) int {
+	b, err := os.ReadFile(path)
+	if err != nil {
+		fmt.Fprintln(os.Stderr, err)
+		return 2
+	}
+	// a replay re-runs the property's check and reports whether the same (rule,key) still fails
+	s := string(b)
+	get := func(k string) string {
+		i := strings.Index(s, `"`+k+`": "`)
+		if i < 0 {
+			return ""
+		}
+		rest := s[i+len(k)+5:]
+		j := strings.Index(rest, `"`)
+		return rest[:j]
+	}
+	prop, rule, key := get("property"), get("rule"), get("key")
+	f, ok := registry[prop]
+	if !ok {
+		fmt.Fprintln(os.Stderr, "unknown property in replay file")
+		return 2
+	}
+	w, err := loadWorld(repo)
+	if err != nil {
+		fmt.Fprintln(os.Stderr, err)
+		return 2
+	}
+	cx := &Ctx{W: w, Fx: newFacts(w), Tier: "quick"}
+	r := newReport(prop, "quick")
+	f(cx, r)
+	for _, o := range r.Obl {
+		if o.Rule == rule && o.Key == key && (o.Verdict == "violation" || o.Verdict == "undecided") {
+			fmt.Printf("VIOLATION property=%s replay=%s\n  rule=%s key=%s at %s: %s\n", prop, path, rule, key, o.Pos, o.Detail)
+			return 1
+		}
+	}
+	fmt.Printf("obligation rule=%s key=%s no longer fails\n", rule, key)
+	return 0
 }
